@@ -135,6 +135,12 @@ func unpackFieldLength(byteOrder binary.ByteOrder, fieldLen int, buff []byte) (f
 }
 
 func packFieldLength(byteOrder binary.ByteOrder, fieldLen int, dataLen int64) []byte {
+	// a length that the field cannot represent must not be truncated silently:
+	// the header would disagree with the body and desynchronise the peer.
+	utils.AssertIf(dataLen < 0, "negative length field value: %d", dataLen)
+	utils.AssertIf(fieldLen < 8 && dataLen >= int64(1)<<(8*uint(fieldLen)),
+		"length (%d) does not fit into a length field of %d byte(s)", dataLen, fieldLen)
+
 	lengthBuff := make([]byte, fieldLen)
 	switch fieldLen {
 	case 1:
